@@ -16,39 +16,110 @@ Proof.
   intros x e Hin. eapply walk_lookup; eauto. eapply in_errset_for; eauto.
 Qed.
 
+(* ------------------------------------------------------------------ one page fetch, from ANY state *)
+Lemma exec_plan_move c : forall ops s s' evs, no_page ops = true -> exec c s ops = (s', evs) -> plan_move s s' evs.
+Proof.
+  induction ops as [|o ops IH]; intros s s' evs N H; cbn [exec] in H.
+  - inversion H; subst. apply plan_move_id; reflexivity.
+  - cbn [no_page forallb] in N. apply andb_prop in N. destruct N as [N1 N2]. apply negb_true_iff in N1.
+    destruct (step c s o) as [s1 ev1] eqn:S. destruct (exec c s1 ops) as [s2 ev2] eqn:E. inversion H; subst.
+    eapply plan_move_trans; [exact (proj1 (step_ok c s o s1 ev1 N1 S))|eapply IH; eauto].
+Qed.
+
+Lemma subseq_prefix {A} (a e r : list A) : subseq a e -> subseq a (e ++ r).
+Proof. apply subseq_app_r. Qed.
+
+Lemma page_no_repeat c ops s s' evs : no_page ops = true -> exec c s ops = (s', evs) -> NoDup (plan s) -> NoDup (plan_sends evs).
+Proof.
+  intros N H D. destruct (exec_plan_move c ops s s' evs N H) as [e C P S]. rewrite P in D.
+  eapply subseq_nodup; [apply subseq_app_r; exact S|exact D].
+Qed.
+
+Lemma replan_master_ok m p : NoDup p -> NoDup (replan_master m p) /\ (forall x, In x (replan_master m p) <-> x = m \/ In x p).
+Proof.
+  intros D. unfold replan_master. split.
+  - constructor.
+    + intros Hin. apply filter_In in Hin. destruct Hin as [_ E]. rewrite Z.eqb_refl in E. discriminate.
+    + apply NoDup_filter. exact D.
+  - intros x. cbn. rewrite filter_In. split.
+    + intros [E|[Hin _]]; auto.
+    + intros [E|Hin]; [left; congruence|]. destruct (Z.eq_dec x m) as [->|Nm]; [left; reflexivity|].
+      right. split; [exact Hin|]. apply negb_true_iff. apply Z.eqb_neq. exact Nm.
+Qed.
+
+(* all_consumed is an invariant of every step, page fetches included *)
+Lemma all_consumed_step c s o s' ev : all_consumed s -> step c s o = (s', ev) -> all_consumed s' /\
+  all_in (hosts_of s' ev) (in_cons s').
+Proof.
+  intros A H.
+  assert (I : HInv (consumed s ++ plan s) s []).
+  { split; [reflexivity|split; [apply subseq_nil_l|]]. intros x Hx. apply A. exact Hx. }
+  destruct (step_hinv c _ _ _ _ _ _ I H) as (_ & _ & I3). cbn [app] in I3. split; [|exact I3].
+  intros x Hx. apply I3, hosts_of_in. apply hosts_nil_split in Hx. tauto.
+Qed.
+
 Section History.
 Variables (c : config) (lb : list host) (target : option host) (pl : list (host * pstate)) (cl : option Z)
           (idem hasp : bool) (maxa : Z) (ks : option Z).
 Let s0 := init lb target pl cl idem hasp maxa ks.
 Let P0 := make_plan lb target.
 
-Lemma history_inv ops s evs : exec c s0 ops = (s, evs) -> HInv P0 s evs.
-Proof. intros H. exact (exec_hinv c P0 ops s0 [] s evs (init_hinv lb target pl cl idem hasp maxa ks) H). Qed.
+Lemma history_inv ops s evs : exec c s0 ops = (s, evs) -> HInv (plan_after_ops c s0 ops P0) s evs.
+Proof. intros H. exact (exec_hinv c ops P0 s0 [] s evs (init_hinv lb target pl cl idem hasp maxa ks) H). Qed.
 
-Lemma order_history ops s evs : exec c s0 ops = (s, evs) ->
+Lemma history_inv_first_page ops s evs : no_page ops = true -> exec c s0 ops = (s, evs) -> HInv P0 s evs.
+Proof. intros N H. rewrite <- (plan_after_ops_no_page c ops s0 P0 N). apply history_inv. exact H. Qed.
+
+Lemma order_history ops s evs : no_page ops = true -> exec c s0 ops = (s, evs) ->
   consumed s ++ plan s = P0 /\ subseq (plan_sends evs) (consumed s) /\ subseq (plan_sends evs) P0.
 Proof.
-  intros H. destruct (history_inv _ _ _ H) as (I1 & I2 & _). split; [exact I1|split; [exact I2|]].
+  intros N H. destruct (history_inv_first_page _ _ _ N H) as (I1 & I2 & _). split; [exact I1|split; [exact I2|]].
   rewrite <- I1. apply subseq_app_r. exact I2.
 Qed.
 
-Lemma no_repeat ops s evs : exec c s0 ops = (s, evs) -> NoDup P0 -> NoDup (plan_sends evs).
-Proof. intros H N. destruct (order_history _ _ _ H) as (_ & _ & S). eapply subseq_nodup; eauto. Qed.
+Lemma no_repeat ops s evs : no_page ops = true -> exec c s0 ops = (s, evs) -> NoDup P0 -> NoDup (plan_sends evs).
+Proof. intros Np H N. destruct (order_history _ _ _ Np H) as (_ & _ & S). eapply subseq_nodup; eauto. Qed.
 
-Lemma mentioned_in_plan ops s evs x : exec c s0 ops = (s, evs) -> In x (hosts_of s evs) -> In x P0.
-Proof.
-  intros H Hx. destruct (history_inv _ _ _ H) as (I1 & _ & I3). rewrite <- I1. apply in_app_iff. left. apply I3, Hx.
-Qed.
+Lemma mentioned_consumed ops s evs x : exec c s0 ops = (s, evs) -> In x (hosts_of s evs) -> In x (consumed s).
+Proof. intros H Hx. destruct (history_inv _ _ _ H) as (_ & _ & I3). apply I3, Hx. Qed.
 
-Lemma target_only ops s evs h : target = Some h -> exec c s0 ops = (s, evs) ->
-  forall h' m cz, In (Sent h' m cz) evs -> h' = h.
+Lemma mentioned_in_plan ops s evs x : no_page ops = true -> exec c s0 ops = (s, evs) -> In x (hosts_of s evs) -> In x P0.
 Proof.
-  intros T H h' m cz Hin.
-  assert (Hp : In h' P0).
-  { eapply mentioned_in_plan; eauto. apply hosts_of_in. right; right; right. eapply in_sent_hosts; eauto. }
-  unfold P0, make_plan in Hp. rewrite T in Hp. destruct Hp as [<-|[]]. reflexivity.
+  intros N H Hx. destruct (history_inv_first_page _ _ _ N H) as (I1 & _ & I3). rewrite <- I1. apply in_app_iff. left. apply I3, Hx.
 Qed.
 End History.
+
+(* explicit target: over every history, page fetches included, only that host is ever mentioned *)
+Definition TInv (h : host) (s : state) (evs : list event) : Prop :=
+  Forall (eq h) (consumed s ++ plan s) /\ HInv (consumed s ++ plan s) s evs.
+
+Lemma tinv_step c h s evs o s' ev : tgt c = Some h -> TInv h s evs -> step c s o = (s', ev) -> TInv h s' (evs ++ ev).
+Proof.
+  intros T (F & I) H. pose proof (step_hinv c _ _ _ _ _ _ I H) as I'.
+  destruct I' as (I1 & I2 & I3). unfold TInv. rewrite I1. split; [|split; [exact I1|split; [exact I2|exact I3]]].
+  destruct o; cbn [plan_after]; try exact F. destruct (paging s); [|exact F].
+  apply Forall_app. split; [apply Forall_app in F; apply F|]. rewrite T. cbn. constructor; [reflexivity|constructor].
+Qed.
+
+Lemma target_only c lb pl cl idem hasp maxa ks h ops s evs : tgt c = Some h ->
+  exec c (init lb (Some h) pl cl idem hasp maxa ks) ops = (s, evs) -> forall h' m cz, In (Sent h' m cz) evs -> h' = h.
+Proof.
+  intros Tg H h' m cz Hin.
+  assert (G : forall ops0 s1 e1 s2 e2, TInv h s1 e1 -> exec c s1 ops0 = (s2, e2) -> TInv h s2 (e1 ++ e2)).
+  { induction ops0 as [|o ops0 IH]; intros s1 e1 s2 e2 T E; cbn [exec] in E.
+    - inversion E; subst. rewrite app_nil_r. exact T.
+    - destruct (step c s1 o) as [sa ea] eqn:S. destruct (exec c sa ops0) as [sb eb] eqn:E2. inversion E; subst.
+      rewrite app_assoc. eapply IH; [|exact E2]. eapply tinv_step; eauto. }
+  assert (T0 : TInv h (init lb (Some h) pl cl idem hasp maxa ks) []).
+  { pose proof (init_hinv lb (Some h) pl cl idem hasp maxa ks) as I.
+    assert (E1 : consumed (init lb (Some h) pl cl idem hasp maxa ks) ++ plan (init lb (Some h) pl cl idem hasp maxa ks) = [h]).
+    { unfold init, start_timer. cbn [spec_armed spec_left]. destruct (0 <? spec_gate idem hasp maxa); reflexivity. }
+    unfold TInv. rewrite E1. split; [constructor; [reflexivity|constructor]|exact I]. }
+  destruct (G ops _ [] s evs T0 H) as (F & (_ & _ & I3)). cbn [app] in I3.
+  assert (Hc : In h' (consumed s)).
+  { apply I3, hosts_of_in. right; right; right. eapply in_sent_hosts; eauto. }
+  rewrite Forall_forall in F. symmetry. apply F. apply in_app_iff. left. exact Hc.
+Qed.
 
 (* ------------------------------------------------------------------ exhaustion *)
 Definition exc_step (s0 s' : state) : Prop :=
@@ -88,7 +159,8 @@ Qed.
 Lemma finish_with_exc_step s r : exc_step s (finish_with s r).
 Proof. left. apply finish_with_res. Qed.
 
-Ltac other_exc := first [apply fail_with_exc_step; intros e0; discriminate | apply finish_with_exc_step].
+Ltac other_exc := first [apply fail_with_exc_step; intros e0; discriminate | apply finish_with_exc_step
+                         | left; exact (proj2 (finish_with_res (set_paging _ _) _))].
 
 Lemma set_result_exc c s h r s' ev : set_result c s h r = (s', ev) -> exc_step s s'.
 Proof.
@@ -124,9 +196,9 @@ Proof.
     eapply exc_step_pre; [|eapply walk_exc; eauto]. reflexivity.
 Qed.
 
-Lemma step_exc c s o s' ev : step c s o = (s', ev) -> exc_step s s'.
+Lemma step_exc c s o s' ev : is_next_page o = false -> step c s o = (s', ev) -> exc_step s s'.
 Proof.
-  intros H. destruct o as [|i r|k| |h0 p|k]; cbn [step] in H.
+  intros NP H. destruct o as [|i r|k| |h0 p|k|pp]; cbn [step] in H; [| | | | | |discriminate].
   - eapply walk_exc; eauto.
   - destruct (nth_error (attempts s) i) as [a|]; [|inversion H; subst; left; reflexivity].
     destruct (a_done a); [inversion H; subst; left; reflexivity|].
@@ -156,8 +228,15 @@ Qed.
 Lemma nohost_only_when_exhausted c s o s' ev errs : step c s o = (s', ev) -> fin_exc s' = Some (XNoHost errs) ->
   fin_exc s = Some (XNoHost errs) \/ (errs = errors s' /\ plan s' = []).
 Proof.
-  intros H E. destruct (step_exc _ _ _ _ _ H) as [G|[(x & G & N)|(G & P)]].
-  - left. congruence.
-  - exfalso. rewrite G in E. inversion E; subst. eapply N; reflexivity.
-  - right. rewrite G in E. inversion E; subst. auto.
+  intros H E. destruct (is_next_page o) eqn:NP.
+  - destruct o; try discriminate. cbn [step] in H. destruct (paging s); [|inversion H; subst; left; exact E].
+    destruct (page_start_fields c s p) as (_ & _ & _ & _ & E0 & _).
+    destruct (walk_exc _ _ _ _ H) as [G|[(x & G & N)|(G & P)]].
+    + congruence.
+    + exfalso. rewrite G in E. inversion E; subst. eapply N; reflexivity.
+    + right. rewrite G in E. inversion E; subst. auto.
+  - destruct (step_exc _ _ _ _ _ NP H) as [G|[(x & G & N)|(G & P)]].
+    + left. congruence.
+    + exfalso. rewrite G in E. inversion E; subst. eapply N; reflexivity.
+    + right. rewrite G in E. inversion E; subst. auto.
 Qed.
